@@ -32,16 +32,16 @@ CHECKS = {
 "C12": dict(
   engine="simdb",
   level_claimed=dict(category="exploration",
-    text="Deterministic simulation of the build driver and of the thread pool around the real compiler: each run compiles a corpus project (repo examples crate, tests/bug_samples, starknet cairo_level_tests, three local templates incl. a contract) through the real entry points after a PRNG history prefix of unrelated queries (module diagnostics, lowering, Sierra of other function subsets, queries on dropped snapshots, edit-then-exact-revert, corelib first), under a drawn hash seed (H2 seam) and a simulated worker count in {1,2,3,4,8,16}. Level 1 (plain salsa): the H1 seam hands every rayon task to an executor that runs the tasks of each batch atomically in a PRNG order. Level 2 (salsa built with its shuttle feature): tasks run on a simulated worker pool of shuttle threads and shuttle's seeded random/PCT scheduler decides every interleaving at salsa's synchronisation points (query claims, blocking, interning). Oracle: id-normalised Sierra (debug names and canonical ids), annotations, diagnostics and contract-class JSON byte-identical to the plainest execution. Seeded search over schedules and histories; violations are minimised (prefix ddmin, fewer workers) and replayed in a fresh process.",
+    text="Deterministic simulation of the build driver and of the thread pool around the real compiler: each run compiles a corpus project (repo examples crate, tests/bug_samples, starknet cairo_level_tests (thorough), 18 local project templates under workloads/projects incl. Starknet contracts/components, executables, circuits, user macros, two-crate and non-compiling projects) through the real entry points after a PRNG history prefix of unrelated queries (module diagnostics, lowering, Sierra of other function subsets, queries on dropped snapshots, edit-then-exact-revert, corelib first, modules reached through their parent only), under a drawn hash seed (H2 seam) and a simulated worker count in {1,2,3,4,8,16}. Level 1 (plain salsa): the H1 seam hands every rayon task to an executor that runs the tasks of each batch atomically in a PRNG order. Level 2 (salsa built with its shuttle feature): tasks run on a simulated worker pool of shuttle threads and shuttle's seeded random/PCT scheduler decides every interleaving at salsa's synchronisation points (query claims, blocking, interning) and, in two fifths of the plans, at PRNG-chosen allocations armed from query-execution events (preemption seam). Every run of both levels executes in its own child process. Oracle: id-normalised Sierra (debug names and canonical ids), annotations, CASM text, diagnostics, contract-class and CASM-contract-class JSON byte-identical to the plainest execution. Seeded search over schedules and histories; violations are minimised (prefix ddmin, fewer workers) and replayed in a fresh process.",
     design_ref="DESIGN.md section 5"),
-  level_note="Level 2 interleaves only at salsa's synchronisation points (shuttle models SeqCst); level 1 tasks are atomic. Rayon's work-stealing is replaced by a simpler pool with the same task set. Raw (unreplaced) interned ids are expected to differ and are used as the reach measure; annotation maps keyed by raw ids are re-keyed by debug name before comparison. Two genuine defects of the pinned tree are listed in known_findings.json (cycle diagnostics; SCC representative by intern id) and re-executed from committed replay files on every run.",
+  level_note="Level 2 interleaves only at salsa's synchronisation points (shuttle models SeqCst); level 1 tasks are atomic. Rayon's work-stealing is replaced by a simpler pool with the same task set. Raw (unreplaced) interned ids are expected to differ and are used as the reach measure; annotation maps keyed by raw ids are re-keyed by debug name before comparison. Four kinds of genuine defect of the pinned tree are listed in known_findings.json (definition-cycle diagnostics; SCC representative by intern id; impl candidate order by intern id; plain query on a recoverable cycle) and re-executed from five committed replay files on every run.",
   technique="deterministic simulation with fault injection (seeded task-order / shuttle schedules and query-history prefixes on the real salsa database)"),
 "C13": dict(
   engine="simdb",
   level_claimed=dict(category="exploration",
-    text="Deterministic simulation of an editor session against one long-lived RootDatabase: PRNG-generated histories (<=12 steps quick, <=30 thorough) of override edits of 25+ kinds (trivia, renames, item/statement insertion, deletion, duplication and moves, syntax-breaking and repairing edits, torn writes), override unset, disk faults under an override (save, torn save, delete, restore), partial queries and queries on snapshots in between, queries cancelled at the k-th executed query, and task-permuted parallel warm-up. After the checked steps the observable (diagnostics with line/column, Sierra with debug-name ids, item-location map through stable pointers) must equal that of a fresh database on the same disk contents and overrides; syntax-tree text/span invariants are checked on sampled nodes. Failures are delta-debugged to a minimal history and confirmed by replay in a fresh process. Seeded search, not exhaustive.",
+    text="Deterministic simulation of an editor session against one long-lived RootDatabase: PRNG-generated histories (<=12 steps quick, <=30 thorough) of override edits of 28 kinds (trivia, attribute and event-kind changes, member/variant additions, whitespace shifts inside macro calls, renames, item/statement insertion, deletion, duplication and moves, syntax-breaking and repairing edits, torn writes), override unset, disk faults under an override (save, torn save, delete, restore), partial queries and queries on snapshots in between, queries cancelled at the k-th executed query, and task-permuted parallel warm-up. After the checked steps the observable (diagnostics with line/column, Sierra with debug-name ids, for Starknet projects ABI and entry points of every contract class, item-location map through stable pointers) must equal that of a fresh database on the same disk contents and overrides; one history in four ends by comparing the in-process fresh database with a fresh database in a new process; syntax-tree text/span invariants are checked on sampled nodes. Failures are delta-debugged to a minimal history with every candidate evaluated in a new process. Seeded search, not exhaustive.",
     design_ref="DESIGN.md section 6"),
-  level_note="Reference model = a fresh compiler instance on the same contents; fresh results memoised by content hash (pure function, see C12). Single-threaded histories. The editor is simulated; project templates are small (7 projects incl. Starknet contracts/components with plugin-generated code, a non-compiling project and cross-module recursion). Differences explained by the two listed C12 findings (known_findings.json) are printed as KNOWN-FINDING.",
+  level_note="Reference model = a fresh compiler instance on the same contents; fresh results memoised by content hash (pure function, see C12). Single-threaded histories. The editor is simulated; project templates are small (18 projects incl. Starknet contracts/components with plugin-generated code, non-compiling projects and cross-module recursion). Differences explained by the listed C12 findings (known_findings.json) are printed as KNOWN-FINDING.",
   technique="deterministic simulation with fault injection (seeded edit/query/cancellation/disk-fault histories vs fresh-database reference model)"),
 }
 def main():
